@@ -275,3 +275,7 @@ pub mod ffidb_probe;
 
 #[path = "db_probe.rs"]
 pub mod db_probe;
+
+// C15 C16 C17 C19: the real master task over the pipe
+#[path = "master_probe.rs"]
+pub mod master_probe;
